@@ -8,23 +8,50 @@ from checks import c13 as C13
 TRUST = ("Lean 4.33 kernel; axioms at most propext/Classical.choice/Quot.sound (audited per run); "
          "hand-written selection model tied to the C++ by the exact correspondence harness (differential, generator-bounded); ")
 MANIFEST = dict(
-  text=("Theorems (Props/C14.lean) about the model of IndicatorBasedSelection for every rank vector (duplicates, single front, mu = n), every "
-        "1 <= mu <= n and every indicator returning K distinct positions: exactly mu individuals are selected, no selected individual has a worse "
-        "rank than an unselected one, whole better fronts are kept; ElitistSelection keeps the mu best for every tie order of its sort; with C13 the ranks are "
-        "rankSpec; steady-state step with the hypervolume indicator never decreases hvSpec (spec-level lemma). The selection model is tied to the real "
-        "IndicatorBasedSelection<HypervolumeIndicator|CrowdingDistance|AdditiveEpsilonIndicator|NSGA3Indicator> and ElitistSelection by exact correspondence "
-        "on integer populations; the optimizer-level clauses (|solution| = mu, reported value = f(closest feasible point) bit-exactly, in-box for SBX/polynomial-"
-        "mutation algorithms, hypervolume monotonicity of steady-state MO-CMA-ES and SMS-EMOA w.r.t. a fixed reference) are checked by an independent "
-        "oracle after init and after every step of the real MOCMA, SteadyStateMOCMA, SMS-EMOA, NSGA-II, NSGA-III, MOEA/D, RVEA runs (fixed seeds)."),
-  note=TRUST + "the optimizer-level clauses are runtime evidence (oracle over generated runs), not theorems: variation operators, step-size adaptation and "
-       "random streams are not modelled; which individual of the last front an indicator discards is compared only through the count (the indicator is a "
-       "parameter of the model; hypervolume contributions themselves are C13). TournamentSelection is exercised inside the optimizer runs only.",
-  technique="Lean 4 proofs about the selection model + exact differential correspondence + oracle-checked runs of the real optimizers (ASan/UBSan)",
+  text=("Theorems (Props/C14.lean, 22) about executable Lean models tied to the real classes. Selection: for every rank vector (duplicates, single front, "
+        "mu = n), every 1 <= mu <= n, IndicatorBasedSelection marks exactly mu individuals, never keeps a worse non-domination rank while discarding a "
+        "better one, keeps whole better fronts; the hypothesis 'the indicator returns K distinct positions of the front' is now DISCHARGED for the modelled "
+        "indicators: the leastContributors loop shared by HypervolumeIndicator / CrowdingDistance / AdditiveEpsilonIndicator returns K distinct positions for "
+        "every leastContributor that returns a valid position, and the models of the hypervolume indicator (2-D/3-D with reference point on top of the C13 "
+        "hypervolume models, 2-D without), the epsilon indicator and the crowding distance (for every arithmetic, incl. IEEE doubles with NaN) do. "
+        "ElitistSelection keeps the mu best for every tie order. PenalizingEvaluator: for every objective, box, penalty factor and point the stored value is "
+        "f(closest feasible point), the penalised value adds alpha*|x - closest|^2, the closest feasible point is feasible. TournamentSelection: the winner is a "
+        "drawn candidate of best rank, for every stream of draws. Population updates of MO-CMA-ES, steady-state MO-CMA-ES, SMS-EMOA, NSGA-II, NSGA-III "
+        "(generational update), MOEA/D (Tchebycheff replacement in the neighbourhood) and RVEA (reference-vector guided selection + truncation): the result "
+        "has exactly mu members and every member carries point and fitness vectors of a parent or offspring; composed over whole runs (any number of steps, "
+        "arbitrary variation operators and random streams): |population| = mu, value = f(closest feasible point) for every member at every step, and, "
+        "when the variation is followed by the clamp of SBX/polynomial mutation, every point inside the box. libstdc++'s std::partition + erase keeps exactly the "
+        "selected individuals, and composed with the count theorem (generational_update_elitist, no hypothesis on the flags): NSGA-II/NSGA-III/MO-CMA-ES keep exactly the mu "
+        "marked individuals and no marked individual has a worse rank than a discarded one. Steady-state hypervolume monotonicity is composed END TO END for the "
+        "modelled SMS-EMOA step (append offspring, IndicatorBasedSelection, replace the first unselected parent), every number of objectives, every population and "
+        "offspring strictly below the fixed reference point, and every leastContributor routine that returns a position of minimal contribSpec on fronts "
+        "(steady_update_hv_monotone_partial; instance: the specification-level indicator specLeast, steady_update_hv_monotone_spec_indicator). "
+        "Tie: exact correspondence on integer populations for selection with exact flags (which individual the indicator discards), evaluator, tournament "
+        "(rng draws observed), and state-by-state for multi-step histories of updatePopulation() of the real SMSEMOA, SteadyStateMOCMA, MOCMA, "
+        "IndicatorBasedRealCodedNSGAII<HV|Eps|Crowding>, MOEAD, RVEA objects (offspring from the real generateOffspring(), points/fitness overwritten by "
+        "integers); independent oracles for size, solution() mirror, survivors from the pool, rank elitism, hypervolume monotonicity; plus oracle-checked "
+        "runs of the seven real optimizers on ZDT/DTLZ (init with own / fewer / exactly mu / more start points)."),
+  note=TRUST + "NOT proved: (1) that the modelled C++ routines hvLeast2d / hvLeast3d (literal sentinel formula of HypervolumeContribution2D, hvWfg differences "
+       "in 3-D) return a position of minimal contribSpec on a front ('2-D contribution formula = contribSpec'), i.e. the hypothesis LeastContribOn of "
+       "steady_update_hv_monotone_partial for the real indicator: tied by exact correspondence of the discarded individual and the exact hvdecrease oracle on integer "
+       "histories only; also partial in the sense that populations with a member on/beyond the reference point are excluded (the real 3-D routine reads out of "
+       "bounds there: finding F-C14-2, patch validated); (2) steady-state MO-CMA-ES adds sortRankOneToFront (a proved permutation) — the hypervolume theorem is stated for the "
+       "SMS-EMOA update; (3) NSGA3Indicator: the niche-counting loop has an executable model (nsga3Least) but neither theorem nor exact tie (its association step is "
+       "floating point behind a linear solve; compared through the count only, the NSGA-III update itself is the NSGA-II template tied with three other indicators); "
+       "(4) RVEA/MOEA-D: the floating-point parts (cosines, angle-penalised distances, lattice neighbourhoods by std::sort) and the rng draws of the "
+       "tournament enter the model as observed inputs (aux pass of the harness, re-verified in the comparison pass); reference-vector adaptation not modelled; "
+       "(5) variation operators (SBX, polynomial mutation, CMA sampling/step-size adaptation) are arbitrary parameters, their clamp is an assumption read off the "
+       "C++ and checked only by the box oracle of the real runs; BoxConstraintHandler::isFeasible has a 1e-13 tolerance (irrelevant on integers); "
+       "(6) tie orders: std::sort on <= 16 elements is libstdc++'s stable insertion sort, the size-1 heap of HypervolumeContribution2D keeps the last minimal entry "
+       "(libstdc++ push_heap): the generator keeps fronts <= 16; hypervolume indicator without reference in 3-D is compared through the count only "
+       "(documented out-of-range erase in HypervolumeContribution3D::smallest, findings_proposed/C14.md).",
+  technique="Lean 4 proofs about the selection/indicator/evaluator/update models + exact differential correspondence (state by state, observed rng) + oracle-checked runs of the real optimizers (ASan/UBSan)",
   design="§6 C14")
 
 FINISH = dict(level="proof",
-              rule="integer populations (2-3 objectives, 1..14 individuals, duplicates, single-front and many-front populations, every 1 <= mu <= n) for "
-                   "5 indicators; elitist selection on tied keys; optimizer runs: 7 algorithms x ZDT/DTLZ problems x 2-3 objectives x mu in 3..20 x "
+              rule="integer populations (2-3 objectives, 1..14 individuals, duplicates, single-front and many-front populations, every 1 <= mu <= n, fresh / stale / "
+                   "all-true flags before the call) for 5 indicators with exact flags; elitist selection on tied keys; evaluator on in/out/edge/far points; tournaments of "
+                   "size 1..5; update histories (8 algorithm instances, mu 1..9, 1..12 steps, duplicate/dominating/dominated/penalised offspring, with and without reference point); optimizer runs: 7 algorithms x ZDT/DTLZ problems x 2-3 objectives x mu in 3..20 x "
                    "refmode 0/1 x 20..300 steps from one SplitMix64 stream; a selection case is non-trivial if the last front is cut (0 < K); distinct = distinct op text")
 
 LAKE_TARGETS = ["SharkVerif.Props.C14", "drv_c14"]
@@ -39,19 +66,139 @@ PROBLEMS3 = ["dtlz1", "dtlz2", "dtlz4", "dtlz7"]
 def build(ctx):
     a = ctx.harness("c14", ["c14.cpp"], repo_sources=SEL_SOURCES)
     b = ctx.harness("c14_opt", ["c14_opt.cpp"], repo_sources=OPT_SOURCES)
-    return a, b
+    c = ctx.harness("c14_gen", ["c14_gen.cpp"], repo_sources=OPT_SOURCES)
+    return a, b, c
+
+
+UPD_ALGOS = ["smsemoa", "ssmocma", "nsga2", "nsga2eps", "nsga2hv", "mocma", "moead", "rvea"]
+LATTICE3 = {3: 1, 6: 2, 10: 3, 15: 4}      # mu -> ticks for 3 objectives
+
+
+def gen_pen(r, ctx):
+    d = r.range(1, 4); m = r.range(1, 3); n = r.range(1, 8); alpha = r.choice([0, 1, 1, 2, 5])
+    lo = [r.range(-4, 1) for _ in range(d)]; hi = [l + r.choice([0, 1, 3, 6]) for l in lo]
+    A = [r.range(-3, 3) for _ in range(m * d)]; B = [r.range(0, 2) for _ in range(m)]
+    pts = []
+    for _ in range(n):
+        mode = r.choice(["in", "out", "edge", "far"])
+        for j in range(d):
+            if mode == "in": pts.append(r.range(lo[j], hi[j]))
+            elif mode == "edge": pts.append(r.choice([lo[j], hi[j], lo[j] - 1, hi[j] + 1]))
+            elif mode == "far": pts.append(r.choice([-1, 1]) * r.range(50, 1000))
+            else: pts.append(r.range(lo[j] - 5, hi[j] + 5))
+        ctx.hist("pen_point_class", mode)
+    ctx.hist("pen_alpha", alpha)
+    return "pen " + " ".join(map(str, [alpha, d, m, n] + lo + hi + A + B + pts))
+
+
+def gen_tour(r, ctx):
+    k = r.choice([1, 2, 2, 2, 3, 5]); n = r.range(k + 1, k + 12); c = r.range(1, 6)
+    ranks = [r.choice([1, 1, 2, 3]) if r.below(4) else 1 for _ in range(n)]
+    ctx.hist("tour_size", k); ctx.hist("tour_all_equal_ranks", len(set(ranks)) == 1)
+    return "tour " + " ".join(map(str, [r.range(1, 100000), k, n, c] + ranks))
+
+
+def gen_upd(r, ctx, maxsteps):
+    algo = r.choice(UPD_ALGOS)
+    m = r.choice([2, 2, 3])
+    hvbased = algo in ("smsemoa", "ssmocma", "nsga2hv", "mocma")
+    ref = 1 if (hvbased and (m == 3 or r.below(2))) else 0
+    if algo == "moead": mu = r.choice([3, 5, 9]) if m == 2 else r.choice([3, 6])
+    elif algo == "rvea": mu = r.range(3, 7) if m == 2 else r.choice([3, 6])
+    elif algo in ("mocma", "ssmocma"): mu = r.range(1, 7)
+    else: mu = r.range(3, 7)
+    T = r.range(1, min(mu, 4)) if algo == "moead" else 0
+    d = r.range(1, 3); steps = r.range(1, maxsteps)
+    w = r.choice([2, 3, 6, 12])
+    def fit(): return [r.range(0, w) for _ in range(m)]
+    parents = []
+    for i in range(mu):
+        f = parents[r.below(len(parents))][1] if parents and r.below(5) == 0 else fit()      # duplicates
+        parents.append(([r.range(-3, 3) for _ in range(d)], f))
+    pool = [p for p in parents]
+    toks = [ref, mu, m, d, T, steps]
+    if ref:
+        # members beyond the reference point: in 2-D always, in 3-D only on a tree that passes the probe (finding F-C14-2)
+        beyond = (m == 2 or REPAIRED["hv3d"]) and r.below(3) == 0
+        toks += [(r.range(max(1, w - 3), w + 1) if beyond else w + 3 + r.below(3)) for _ in range(m)]
+        ctx.hist("upd_reference_inside_cloud", beyond)
+    for x, f in parents: toks += x + f
+    c = 1 if algo in ("smsemoa", "ssmocma", "moead") else mu
+    for _ in range(steps):
+        toks.append(c)
+        for _ in range(c):
+            kind = r.choice(["new", "new", "new", "dup", "good", "bad"])
+            ctx.hist("upd_offspring_class", kind)
+            if kind == "dup": x, u = pool[r.below(len(pool))]; x, u = list(x), list(u)
+            else:
+                x = [r.range(-3, 3) for _ in range(d)]
+                u = fit() if kind == "new" else ([0] * m if kind == "good" else [w] * m)
+                if kind == "good": u[r.below(m)] = r.range(0, w)
+            pen = r.choice([0, 0, 0, 1, 2]) if kind != "dup" else 0
+            toks += x + [v + pen for v in u] + u
+            pool.append((x, u))
+    ctx.hist("upd_algo", algo); ctx.hist("upd_mu", mu); ctx.hist("upd_objectives", m); ctx.hist("upd_ref", ref)
+    ctx.count("upd_steps_total", steps)
+    return f"upd {algo} " + " ".join(map(str, toks))
+
+
+def observe_aux(ctx, exe, lines):
+    """first pass: the real code reports the auxiliary values that are inputs of the model (rng draws of the
+    tournament, MOEA/D neighbourhoods, RVEA sub-group assignment and order of the angle-penalised distances);
+    they are appended to the op (`aux ...`), and re-verified by the harness in the comparison pass"""
+    import subprocess
+    out, rest = [], list(lines)
+    while rest:                      # a sanitizer abort only loses the aborting line
+        p = subprocess.run([exe, "--aux"], input="\n".join(rest) + "\n", capture_output=True, text=True, timeout=900)
+        got = p.stdout.split("\n")[:-1] if p.stdout.endswith("\n") else p.stdout.split("\n")
+        got = got[:len(rest)]
+        out += got
+        if len(got) >= len(rest): break
+        out.append(""); rest = rest[len(got) + 1:]
+    res = []
+    for l, a in zip(lines, out):
+        a = a.strip()
+        need = l.split()[0] == "tour" or l.split()[1] in ("moead", "rvea")
+        res.append(l + " aux " + a if (a or need) else l)
+    return res
+
+
+REPAIRED = {"hv3d": False}     # set by the corpus probe in run(): does the tree survive a front member beyond the reference point?
+PROBE_HV3D = "sel hvr 1 3 2 4 4 4 4 3 2 5 0 3"
+
+
+def probe_hv3d(ctx, exe):
+    """finding F-C14-2: on an unrepaired tree HypervolumeContribution3D reads out of bounds when a front member is not strictly
+    below the reference point; the generator enters that region only where the probe input runs cleanly"""
+    import subprocess
+    try:
+        p = subprocess.run([exe], input=PROBE_HV3D + "\n", capture_output=True, text=True, timeout=60)
+        return p.returncode == 0 and p.stdout.startswith("ranks=")
+    except Exception:
+        return False
 
 
 def gen_sel(r, ctx):
-    ind = r.choice(["hv", "hv", "hvnoref", "crowd", "eps", "nsga3"])
+    ind = r.choice(["hv", "hv", "hvnoref", "crowd", "eps", "nsga3", "hvr", "hvr"])
+    # (the harness starts from a fresh container, stale alternating marks or all-true marks depending on (n + mu) % 3)
     m = r.choice([2, 2, 3])
     n = r.range(1, 14)
     w = r.choice([2, 3, 4, 6])
     P = C13.gen_points(r, m, n, w, r.choice([0, 1, 5]), r.choice(["mix", "dup", "front", "front"]))
     mu = r.choice([1, n, r.range(1, n)])
     ctx.hist("sel_indicator", ind); ctx.hist("sel_n", n); ctx.hist("sel_mu_eq_n", mu == n)
+    ctx.hist("sel_flags_before", ["fresh", "stale-alternating", "all-true"][(n + mu) % 3] + ("/mu=n" if mu == n else ""))
     ctx.hist("sel_single_front", len(C13.nondominated(P)) == n)
     ctx.hist("sel_duplicates", len({tuple(p) for p in P}) < n)
+    if ind == "hvr":
+        # explicit reference point; members beyond it in 2-D always, in 3-D only on a tree that passes the probe
+        beyond = (m == 2 or REPAIRED["hv3d"]) and r.below(3) != 0
+        ref = []
+        for d in range(m):
+            lo_d = min(p[d] for p in P); hi_d = max(p[d] for p in P)
+            ref.append(r.range(lo_d, hi_d + 1) if beyond else hi_d + 1 + r.below(3))
+        ctx.hist("sel_hvr_member_beyond_reference", any(any(p[d] >= ref[d] for d in range(m)) for p in P))
+        return f"sel hvr {mu} {m} {n} {' '.join(map(str, ref))} {C13.flat(P)}"
     return f"sel {ind} {mu} {m} {n} {C13.flat(P)}"
 
 
@@ -74,12 +221,13 @@ def gen_opt(r, ctx, maxsteps):
     seed = r.range(1, 1000)
     ctx.hist("opt_algo", algo); ctx.hist("opt_problem", f"{prob}/{nobj}"); ctx.hist("opt_mu", mu); ctx.hist("opt_refmode", refmode)
     ctx.count("opt_steps_total", steps)
-    return f"opt {algo} {prob} {nvars} {nobj} {mu} {seed} {steps} {refmode}"
+    initmode = r.choice([0, 0, 1, 2, 3]); ctx.hist("opt_initmode", initmode)
+    return f"opt {algo} {prob} {nvars} {nobj} {mu} {seed} {steps} {refmode} {initmode}"
 
 
 def classify(ops, res):
     t = ops[0].split()
-    tag = t[0] + ":" + t[1] if t[0] in ("sel", "opt") else t[0]
+    tag = t[0] + ":" + t[1] if t[0] in ("sel", "opt", "upd") else t[0]
     if res.crash:
         m = re.search(r"SUMMARY: \w+: (\S+)[^\n]*? in (?:\w+ )*(?:shark::)?(\w+)|runtime error: ([^\n]*)", res.stderr)
         k = (f"{m.group(1)}@{m.group(2)}" if m.group(1) else m.group(3)) if m else ("timeout" if "TIMEOUT" in res.stderr else "crash")
@@ -95,23 +243,25 @@ def shrink(line, fails, budget=40):
     if t[0] == "opt":
         steps = int(t[7])
         while steps > 1 and budget > 0:
-            c = t[:7] + [str(steps // 2)] + t[8:]; budget -= 1
+            c = t[:7] + [str(max(1, steps // 2))] + t[8:]; budget -= 1
             if fails(" ".join(c)): steps //= 2; t = c
             else: break
         return " ".join(t)
     if t[0] == "sel":
         ind, mu, m, n = t[1], int(t[2]), int(t[3]), int(t[4]); nums = t[5:]
+        ref = []
+        if ind == "hvr": ref, nums = nums[:m], nums[m:]
         P = [nums[i * m:(i + 1) * m] for i in range(n)]
+        mk = lambda mu_, Q: f"sel {ind} {mu_} {m} {len(Q)} " + " ".join(ref + [x for p in Q for x in p])
         changed = True
         while changed and budget > 0:
             changed = False
             for i in range(len(P) - 1, -1, -1):
                 if len(P) <= 1: break
                 Q = P[:i] + P[i + 1:]; mu2 = min(mu, len(Q)); budget -= 1
-                cand = f"sel {ind} {mu2} {m} {len(Q)} " + " ".join(x for p in Q for x in p)
-                if fails(cand): P, mu, changed = Q, mu2, True
+                if fails(mk(mu2, Q)): P, mu, changed = Q, mu2, True
                 if budget <= 0: break
-        return f"sel {ind} {mu} {m} {len(P)} " + " ".join(x for p in P for x in p)
+        return mk(mu, P)
     return line
 
 
@@ -125,34 +275,46 @@ def load_corpus(prefix):
 
 
 def run(ctx):
-    ctx.trusted += ["correspondence harnesses harness/c14.cpp, harness/c14_opt.cpp (independent oracles) + generator checks/c14.py",
-                    "hand-written model Model/MOO.lean (the C++ is modelled, not translated); ranks from Model/Pareto.lean (C13)",
+    ctx.trusted += ["correspondence harnesses harness/c14.cpp, harness/c14_gen.cpp, harness/c14_opt.cpp (independent oracles) + generator checks/c14.py",
+                    "hand-written models Model/MOO.lean, Model/MOOInd.lean, Model/MOOStep.lean (the C++ is modelled, not translated); ranks from Model/Pareto.lean, hypervolume from Model/Hypervolume.lean (C13)",
+                    "observed inputs of the model (rng draws, MOEA/D neighbourhoods, RVEA sub-groups / order of angle-penalised distances) are reported by the real code in a first pass and re-verified in the comparison pass",
+                    "libstdc++ tie behaviour of std::sort (<= 16 elements), push_heap/pop_heap and std::partition is part of the model",
                     "ASan/UBSan runtime for the real code's memory safety (not a theorem)"]
     ctx.assumptions += ["1 <= mu <= population size (mu = 0 makes the C++ loop run forever; mu > n underflows popSize - mu)",
                         "tournament-based optimizers need mu >= 3 (TournamentSelection requires n > tournament size), lattice-based ones mu >= number of objectives",
+                        "3 objectives: every generated fitness vector is strictly below the reference point of the hypervolume indicator UNLESS the tree passes the corpus probe of finding F-C14-2 (on /repo HEAD the 3-D contribution routine reads out of bounds otherwise); 2 objectives: members beyond the reference point are generated always",
                         "optimizer clauses are checked on the generated runs only (fixed seeds), benchmark functions are deterministic"]
     ctx.prove(["SharkVerif.Props.C14"])
     if not ctx.quick:
         ctx.leanchecker(["SharkVerif.Props.C14"])
-    sel_exe, opt_exe = build(ctx)
+    sel_exe, opt_exe, gen_exe = build(ctx)
     drv = ctx.driver("drv_c14")
-    if not sel_exe or not opt_exe or not drv:
+    if not sel_exe or not opt_exe or not gen_exe or not drv:
         return
     r = ctx.rng.fork("c14")
+    REPAIRED["hv3d"] = probe_hv3d(ctx, sel_exe)
+    ctx.cov["probe_hv3d_reference_not_dominated_survives"] = REPAIRED["hv3d"]
+    ctx.log(f"probe F-C14-2 (3-D contributions with a member beyond the reference point): {'repaired tree, region generated' if REPAIRED['hv3d'] else 'unrepaired, region not generated (corpus input reports the known finding)'}")
     nsel, nelit, nopt, maxsteps = (400, 60, 90, 120) if ctx.quick else (3000, 300, 500, 300)
     sel_lines = load_corpus(("sel", "elit")) + [gen_sel(r, ctx) for _ in range(nsel)] + [gen_elit(r, ctx) for _ in range(nelit)]
     opt_lines = load_corpus(("opt",)) + [gen_opt(r, ctx, maxsteps) for _ in range(nopt)]
-    ctx.cov["corpus_cases"] = len(load_corpus(("sel", "elit", "opt")))
-    ctx.cov["evaluations"] = len(sel_lines) + len(opt_lines)
-    ctx.cov["distinct_nontrivial"] = len(set(sel_lines)) + len(set(opt_lines))
+    npen, ntour, nupd, updsteps = (60, 60, 260, 5) if ctx.quick else (400, 400, 2500, 12)
+    gen_lines = load_corpus(("pen", "tour", "upd")) + [gen_pen(r, ctx) for _ in range(npen)] + [gen_tour(r, ctx) for _ in range(ntour)] + \
+        [gen_upd(r, ctx, updsteps) for _ in range(nupd)]
+    gen_lines = observe_aux(ctx, gen_exe, [l.split(" aux")[0] for l in gen_lines])
+    ctx.cov["corpus_cases"] = len(load_corpus(("sel", "elit", "opt", "pen", "tour", "upd")))
+    ctx.cov["evaluations"] = len(sel_lines) + len(opt_lines) + len(gen_lines)
+    ctx.cov["distinct_nontrivial"] = len(set(sel_lines)) + len(set(opt_lines)) + len(set(gen_lines))
+    ctx.sample({"upd_op": gen_lines[-1][:300]})
     ctx.sample({"sel_op": sel_lines[len(sel_lines) // 2][:160]}); ctx.sample({"opt_op": opt_lines[-1]})
     C13.correspond_lines(ctx, "K-C14[selection]", sel_lines, [sel_exe], [drv], classify=classify, shrink=shrink)
+    C13.correspond_lines(ctx, "K-C14[generation]", gen_lines, [gen_exe], [drv], classify=classify, shrink=shrink)
     C13.correspond_lines(ctx, "K-C14[optimizers]", opt_lines, [opt_exe], [drv], classify=classify, shrink=shrink, timeout=1500)
 
 
 def replay(ctx, rep):
-    sel_exe, opt_exe = build(ctx); drv = ctx.driver("drv_c14")
-    exe = opt_exe if rep["ops"][0].startswith("opt") else sel_exe
+    sel_exe, opt_exe, gen_exe = build(ctx); drv = ctx.driver("drv_c14")
+    exe = opt_exe if rep["ops"][0].startswith("opt") else (gen_exe if rep["ops"][0].split()[0] in ("pen", "tour", "upd") else sel_exe)
     res = core.run_case(ctx, [exe], [drv], rep["ops"])
     print("\n".join(f"op   : {o}\nimpl : {a}\nmodel: {b}" for o, a, b in zip(rep["ops"], res.impl, res.model)))
     print("stderr:", res.stderr[-2000:])
